@@ -191,20 +191,21 @@ def command_line():
                 src = os.path.join(d, stem + ".bas")
                 open(src, "w").write("10 A=1\n")
                 for flags in itertools.chain.from_iterable(itertools.combinations(flagmap, r) for r in range(len(flagmap) + 1)):
-                    for extra in ([], ["-s", "80"], ["-c", "cfg.yaml"]):
+                    sizes = ["80"] if stem != "prog" else ["80", "1", "31", "32", "33", "255", "256", "1000", "32767"]
+                    for extra in [[], ["-c", "cfg.yaml"]] + [["-s", n] for n in sizes]:
                         decb_to_b09.start(list(flags) + extra + [src, os.path.join(d, "out.b09")])
                         want = dict(defaults)
                         for f in flags:
                             want[flagmap[f][0]] = flagmap[f][1]
                         if extra[:1] == ["-s"]:
-                            want["default_str_storage"] = 80
+                            want["default_str_storage"] = int(extra[1])
                         if extra[:1] == ["-c"]:
                             want["config_file"] = "cfg.yaml"
                         want["procname"] = stem
                         if captured != want:
                             res.append(ob("cli/%s %s" % (stem, " ".join(list(flags) + extra)), False, want, dict(captured)))
             if not res:
-                res.append(ob("cli/flags map to exactly their option; procedure named after the file stem", True, "7 stems x 16 flag sets x 3", "all equal"))
+                res.append(ob("cli/flags map to exactly their option; procedure named after the file stem", True, "7 stems x 16 flag sets x (none, -c, -s n; nine values of n for the first stem)", "all equal"))
         finally:
             decb_to_b09.convert_file = saved
             for f in os.listdir(d):
@@ -234,7 +235,9 @@ def shared():
     from tx import p_c10, p_c13
     from tx import p_c12
     return ([dict(o, id="size/" + o["id"]) for o in p_c10.dim_contract() if "one statement" in o["id"]] + __import__("tx.p_c05", fromlist=["share"]).share("deps/", p_c13.small_graphs() + p_c13.bundle_closed_through_convert() + p_c13.history() + p_c13.line_splitting() + p_c13.user_text())
-            + [dict(o, id="function-of-its-arguments/" + o["id"]) for o in p_c12.persistent_state()])
+            + [dict(o, id="function-of-its-arguments/" + o["id"]) for o in p_c12.persistent_state()]
+            # initialize_vars adds assignments of the program's own variables only (shared with C09)
+            + __import__("tx.p_c05", fromlist=["share"]).share("init/", __import__("tx.p_c09", fromlist=["x"]).initializer_positions() + __import__("tx.p_c09", fromlist=["x"]).initializer_skips_generated()))
 
 
 def obligations():
